@@ -120,20 +120,55 @@ func streamAuthInterceptor(auth Authenticate, access Access) grpc.StreamServerIn
 				}
 				return handler(srv, w)
 			case "/gripql.Job/ListJobs":
-				//TODO: filter list of jobs
-				return handler(srv, ss)
+				w, err := NewStreamOutWrapper[gripql.GraphID](ss)
+				if err != nil {
+					return status.Error(codes.Unknown, "Request error")
+				}
+				err = access.Enforce(user, w.Request.Graph, Read)
+				if err != nil {
+					return status.Error(codes.PermissionDenied, "PermissionDenied")
+				}
+				return handler(srv, w)
 			case "/gripql.Job/ResumeJob":
-				//TODO: filter list of jobs
-				return handler(srv, ss)
+				w, err := NewStreamOutWrapper[gripql.ExtendQuery](ss)
+				if err != nil {
+					return status.Error(codes.Unknown, "Request error")
+				}
+				err = access.Enforce(user, w.Request.Graph, Exec)
+				if err != nil {
+					return status.Error(codes.PermissionDenied, "PermissionDenied")
+				}
+				return handler(srv, w)
 			case "/gripql.Job/ViewJob":
-				//TODO: filter list of jobs
-				return handler(srv, ss)
+				w, err := NewStreamOutWrapper[gripql.QueryJob](ss)
+				if err != nil {
+					return status.Error(codes.Unknown, "Request error")
+				}
+				err = access.Enforce(user, w.Request.Graph, Read)
+				if err != nil {
+					return status.Error(codes.PermissionDenied, "PermissionDenied")
+				}
+				return handler(srv, w)
 			case "/gripql.Job/SearchJobs":
-				//TODO: filter list of jobs
+				w, err := NewStreamOutWrapper[gripql.GraphQuery](ss)
+				if err != nil {
+					return status.Error(codes.Unknown, "Request error")
+				}
+				err = access.Enforce(user, w.Request.Graph, Read)
+				if err != nil {
+					return status.Error(codes.PermissionDenied, "PermissionDenied")
+				}
+				return handler(srv, w)
+			case "/gripql.Query/ListTables":
+				err = access.Enforce(user, "*", Read)
+				if err != nil {
+					return status.Error(codes.PermissionDenied, "PermissionDenied")
+				}
 				return handler(srv, ss)
 			}
+			//a streaming method without an access rule is refused, not passed through
 			log.Errorf("Unknown streaming output: %#v", info)
-			return handler(srv, ss)
+			return status.Error(codes.Unknown, "Unknown method")
 		} else if info.IsClientStream {
 			if info.FullMethod == "/gripql.Edit/BulkAdd" {
 				//This checks permission on a per entity basis
@@ -143,7 +178,7 @@ func streamAuthInterceptor(auth Authenticate, access Access) grpc.StreamServerIn
 				return handler(srv, &BulkWriteFilter{ss, user, access})
 			} else {
 				log.Errorf("Unknown input streaming op %#v!!!", info)
-				return handler(srv, ss)
+				return status.Error(codes.Unknown, "Unknown method")
 			}
 		}
 
